@@ -4,6 +4,7 @@
 From Coq Require Import List String ZArith Bool.
 From NGO Require Import Syntax.Ast Gen.Cli.
 From NGO Require Model.Normalize Model.CleanupExecute Model.UnusedExecute Model.ProjectionExecute.
+From NGO Require Model.Symmetry Model.MinMax Model.Inline Model.Duplication.
 Import ListNotations.
 Open Scope string_scope. Open Scope list_scope.
 
@@ -11,6 +12,12 @@ Definition run_pass (cls: string) (inputs outputs: list pred) (prg: list stmt) :
   if String.eqb cls "CleanupTranslator" then CleanupExecute.execute inputs prg
   else if String.eqb cls "UnusedTranslator" then UnusedExecute.execute prg inputs outputs prg
   else if String.eqb cls "ProjectionTranslator" then ProjectionExecute.execute prg inputs prg
+  else if String.eqb cls "LiteralDuplicationTranslator" then Duplication.execute prg inputs
+  else if String.eqb cls "SymmetryTranslator" then Symmetry.execute prg inputs prg
+  else if String.eqb cls "MinMaxAggregator" then MinMax.mm_execute prg inputs prg
+  else if String.eqb cls "InlineTranslator" then Inline.run_execute prg inputs outputs prg
+  (* SumAggregator depends on the iteration order of a Python set (an extra input of Model/SumChains.v) and
+     MathSimplification on sympy: not composed here *)
   else OutOfFragment.
 
 (* one iteration of the while-loop body: the `if <flag>:` blocks in source order, then exline_arithmetic *)
